@@ -29,6 +29,7 @@ class Contract:
     ghost_out: dict = field(default_factory=dict)    # name -> lambda source (Int -> Int), defined over the locals at exit
     locals: dict = field(default_factory=dict)       # local variable name -> type (for `x = []`)
     pure_result: bool = False                        # result is a deterministic function of arguments (no heap)
+    hints: list = field(default_factory=list)        # proof hints (sound by construction): 'eager-inst'
 
     def labelled(self, which):
         out = []
